@@ -61,15 +61,20 @@ class Run:
                     if up == "1":
                         slots[d] = ("s", a)
             elif w[0] == "hook":
-                it = w[2].split(":")
-                if it[0] == "do":
-                    o = int(it[1])
-                    if o not in self.ops:
-                        # target resolved when executed; approximate with the table now (re-resolved lazily below)
-                        self.ops[o] = dict(kind=it[2], target=None, tmo=None if it[4] == "-" else int(it[4]),
-                                           round=None, tick=None, hook=True, slot=int(it[3]), by=int(w[1]))
-                elif it[0] == "kill":
-                    self.kills.append((r, None, True))
+                for item in w[2].split("+"):
+                    it = item.split(":")
+                    if it[0] == "do":
+                        o = int(it[1])
+                        if o not in self.ops:
+                            # the target is resolved when the item is executed; the table as it is now is
+                            # recorded as an approximation (hook_target), target stays None for the
+                            # monitors that need certainty
+                            tgt = slots.get(int(it[3]))
+                            self.ops[o] = dict(kind=it[2], target=None, tmo=None if it[4] == "-" else int(it[4]),
+                                               round=None, tick=None, hook=True, slot=int(it[3]), by=int(w[1]),
+                                               hook_target=tgt[1] if tgt and tgt[0] == "s" else None, posted=r)
+                    elif it[0] == "kill":
+                        self.kills.append((r, None, True))
             elif w[0] == "advance":
                 now += int(w[1])
             self.nact_at.append(nact)
@@ -532,7 +537,117 @@ def m_C13(run):
     return f
 
 
+# ------------------------------------------------------------------------------ C14
+def m_C14(run):
+    """no undetected ask cycle: at the end, the wait-for graph read through the hook is acyclic"""
+    f = []
+    L = run.last()
+    if L < 0:
+        return f
+    g = run.rounds[L].get("G", [])
+    edges = {}
+    for t in g:
+        if t.startswith("g:") and ">" in t:
+            k, v = t[2:].split(">")
+            edges[k] = v
+    for start in edges:
+        cur, seen = start, set()
+        while cur in edges and cur not in seen:
+            seen.add(cur)
+            cur = edges[cur]
+        if cur == start and start in seen:
+            f.append("undetected ask cycle through actor id %s at the end of the script: %s" % (start, sorted(edges.items())))
+            break
+    return f
+
+
+# ------------------------------------------------------------------------------ C15
+STALE = "[stale-edge-after-reply]"
+
+
+def m_C15(run):
+    f = []
+    nr = len(run.rounds)
+    seen = set()
+    # sequence stamps (b: begin, x: handler exit = reply sent, d: asker resumed, p: refused by the detector)
+    stamps = {}
+    if nr:
+        for t in run.rounds[nr - 1].get("Q", []):
+            if "=" in t:
+                k, v = t.split("=")
+                stamps[k] = int(v)
+    for r in range(nr):
+        for a in range(run.nact):
+            for e in run.ev(r, a):
+                if not e.startswith("DLK:") or (a, e) in seen:
+                    continue
+                seen.add((a, e))
+                ids = [int(x) for x in e[4:].split(">") if x]
+                if len(ids) < 2 or ids[0] != ids[-1] or ids[0] != a + 1:
+                    f.append("round %d: malformed cycle %s reported by actor %d" % (r + 1, e, a))
+                    continue
+                # when did actor a panic?  at the begin of its last refused ask
+                pseq = max([v for k, v in stamps.items() if k.startswith("p") and run.ops.get(int(k[1:]), {}).get("by") == a] or [None])
+                if pseq is None:
+                    continue    # a self-ask in a hook without stamps: nothing to classify
+                # ids[0] -> ids[1] is the ask that was refused; ids[1] -> ... -> ids[0] must be live edges
+                for i in range(1, len(ids) - 1):
+                    u, v = ids[i] - 1, ids[i + 1] - 1
+                    cands = [o for o, m in run.ops.items()
+                             if m.get("hook") and m["kind"] == "ask" and m.get("by") == u and m.get("hook_target") == v]
+                    live, stale, dead = [], [], []
+                    for o in cands:
+                        b, x, d = stamps.get("b%d" % o), stamps.get("x%d" % o), stamps.get("d%d" % o)
+                        if b is None or b > pseq:
+                            continue
+                        if d is not None and d < pseq:
+                            dead.append(o)
+                        elif x is not None and x < pseq:
+                            stale.append(o)
+                        else:
+                            live.append(o)
+                    if live:
+                        continue
+                    if stale:
+                        f.append("%s round %d: actor %d panicked with %s but the ask %d (actor %d -> %d) had already been answered"
+                                 % (STALE, r + 1, a, e, stale[0], u, v))
+                    else:
+                        f.append("round %d: actor %d panicked with %s but no in-flight ask from actor %d to actor %d existed at that moment (finished before: %s)"
+                                 % (r + 1, a, e, u, v, dead))
+        # the wait-for graph at quiescence = the pending asks made from actor context
+        g = run.rounds[r].get("G", [])
+        if g and g != ["g:-"]:
+            edges = sorted(t for t in g if t.startswith("g:"))
+            if "g:POISONED" in edges:
+                f.append("round %d: the wait-for graph mutex is poisoned" % (r + 1))
+                edges = [t for t in edges if t != "g:POISONED"]
+            exp = sorted("g:%d>%d" % (m["by"] + 1, m["hook_target"] + 1) for o, m in run.ops.items()
+                         if m.get("hook") and m["kind"] == "ask" and m.get("hook_target") is not None and run.res(r, o) == "pending")
+            if edges != exp:
+                f.append("round %d: wait-for graph at quiescence is %s but the pending asks made from actor context are %s"
+                         % (r + 1, edges, exp))
+                break
+    return f
+
+
+def m_C12(run):
+    """framework-wide state after failures: the graph mutex is not poisoned"""
+    f = []
+    for r in range(len(run.rounds)):
+        if "g:POISONED" in run.rounds[r].get("G", []):
+            f.append("round %d: the wait-for graph mutex is poisoned" % (r + 1))
+            break
+    return f
+
+
 MONITORS = {
     "C01": m_C01, "C02": m_C02, "C03": m_C03, "C04": m_C04, "C05": m_C05, "C06": m_C06, "C07": m_C07,
-    "C08": m_C08, "C09": m_C09, "C10": m_C10, "C11": m_C11, "C13": m_C13,
+    "C08": m_C08, "C09": m_C09, "C10": m_C10, "C11": m_C11, "C12": m_C12, "C13": m_C13, "C14": m_C14, "C15": m_C15,
 }
+
+
+def classify_stale(r, failures):
+    """check.py hook: the class of a set of failures, for matching against KNOWN_FINDINGS.txt"""
+    if failures and all(isinstance(x, str) and x.startswith(STALE) for x in failures):
+        return "stale-edge-after-reply"
+    return None
